@@ -5,8 +5,8 @@ from tools.check import MachineryError
 RULE = ("V: every row of Lighthouse.tla's gate table (node is/is not a lighthouse x sender's certificate lists no / its primary / "
         "only its secondary address among the configured lighthouses x single / multi-address sender (v4+v4, v4+v6, v6+v4) x "
         "7 message types x claimed address {primary, secondary, another host's, unknown host's, unset} x v1/v2 encoding x "
-        "payload {none, v4, v4+v6+relays, no Details}) after a legitimate warm-up; R: histories of <= 3 messages from a "
-        "20-message alphabet; each executed through LightHouseHandler.HandleRequest on a real LightHouse; messages sent, "
+        "payload {none, v4, v4+v6+relays, other v6 addresses, no Details}) after a legitimate warm-up that stores IPv4 and IPv6 addresses; R: histories of <= 3 messages from a "
+        "26-message alphabet (the handler object is reused across the messages of a history as in a reader routine); each executed through LightHouseHandler.HandleRequest on a real LightHouse; messages sent, "
         "punches, punch-back, handshake trigger and the address cache projected after every message; distinct = distinct vectors")
 ASSUMPTIONS = [
     "'records addresses for A only from a tunnel authenticated as A' is read as: a host update is recorded only when the address it "
